@@ -60,6 +60,8 @@ func NewKHashAggregate(
 	}
 	// Grouping labels need to be sorted in order for metric hashing to work.
 	// https://github.com/prometheus/prometheus/blob/8ed39fdab1ead382a354e45ded999eb3610f8d5f/model/labels/labels.go#L162-L181
+	// A copy is sorted: the slice belongs to the parsed expression and is shared with the select hints.
+	labels = slices.Clone(labels)
 	slices.Sort(labels)
 
 	a := &kAggregate{
